@@ -22,6 +22,10 @@ class Ctx:
         if not isinstance(v, View): raise Undecided('invariant names local %r which is not an array here' % name)
         return v.base
     def Sum(self, lo, hi, f): return self.st.reg.Sum(lo, hi, f)
+    def scalar(self, name):
+        v = self.st.env.get(name)
+        if not isinstance(v, (Cell, IntV)): raise Undecided('invariant names scalar local %r which is not a scalar here' % name)
+        return v.t
     def has(self, name): return self.present.get(name, name in self._names)
     def entry_of(self, base): return self.st.initial[base]
     def retarr(self):
@@ -74,11 +78,14 @@ class Contract:
     def invariants(self): return {}
     def spec_instances(self, c, idx): return []          # definitional axioms of the spec functions at index idx
     def extra_axioms(self, c): return []
+    def axioms(self, alg): return ()                    # quantified background axioms handed to every obligation of this function
+    def spec_lemmas(self, c): return []                 # [(name, [assumptions], goal, [axioms])]: facts about the spec functions, proved on their own
     def cfg_assumptions(self, c, cfg): return []
 
     # ---- native side (replay of counterexamples, bounded stand-in); oracle = bounded/specinterp.py, never algopy
     def sample_x0(self, name, rng): return round(rng.uniform(0.3, 0.9) * 16) / 16
     def native_init(self, name, arr, cfgname): pass
+    def cell_shapes(self, cfgname): return {}           # array parameter -> shape of one cell (matrix kernels); {} = scalar cells
     def native_scalars(self, cfgname, rng): return {}
     def oracle(self, inp, scal, cfgname): raise NotImplementedError
     def out_key(self, cfgname, name='out'):
@@ -112,7 +119,7 @@ def base_env(alg):
 def setup(contract, cfgname, D, registry, repo):
     """build state + executor + parameters for one configuration; returns (ex, ctx factory, fn node, sha)"""
     alg = make_alg(contract.alg)
-    st = E.State(alg); st.lemma_depth = contract.lemma_depth
+    st = E.State(alg); st.lemma_depth = contract.lemma_depth; st.axioms = tuple(contract.axioms(alg))
     Dt = z3.Int('D') if D is None else z3.IntVal(D)
     if D is None: st.assume.append(Dt >= 1)
     fn, seg, sha = E.load_function(repo, contract.file, contract.qual)
@@ -147,6 +154,7 @@ def setup(contract, cfgname, D, registry, repo):
         elif val == 'int': st.env[s] = IntV(z3.Int(s))
         elif isinstance(val, int): st.env[s] = IntV(val)
         elif val == 'func': st.env[s] = FuncV(s)
+        elif val == 'cell': st.env[s] = Cell(z3.Const(s, alg.sort))
         else: raise Undecided('scalar kind %r' % (val,))
     present = {a: (st.env.get(a.split('.')[0]) is not None) for a in contract.arrays}
     def mk(goal=False):
@@ -182,6 +190,9 @@ def generate(contract, cfgname, registry, repo, D=None):
     st.pre = pre; st.names = names; st.ex = ex
     ret = ex.block(fn.body)
     retval = ret[1] if ret is not None else None
+    # lemmas about the spec functions (proved in their own small context)
+    for (nm, hyps, goal, axs) in contract.spec_lemmas(mk()):
+        st.oblig.append(E.Obligation('lemma: ' + nm, goal, list(hyps), len(st.reg.terms), 'lemma', axs))
     # postconditions
     cg = mk(True); cg.ret = retval
     posts = contract.ensures(cg)
@@ -281,6 +292,8 @@ class Callee:
                     if not isinstance(val, (Cell, IntV)): okc = False
                 elif want == 'func':
                     if not isinstance(val, FuncV): okc = False
+                elif want == 'cell':
+                    if not isinstance(val, Cell): okc = False
             if okc: cfgname = nm; break
         if cfgname is None:
             raise Undecided('call of %s uses an aliasing/argument configuration the contract does not list: alias=%s' % (con.qual, alias))
@@ -350,12 +363,15 @@ def verify_cfg(contract, cfgname, registry, repo, D=None, timeout_ms=None):
     alg = st.alg
     tmo = timeout_ms or contract.timeout_ms
     for ob in st.oblig:
-        v, dt, why = E.discharge(ob, st.reg, alg, tmo, depth=contract.lemma_depth)
-        if v != 'unsat' and not z3.is_true(ob.goal):
-            v2, dt2, why2 = E.discharge(ob, st.reg, alg, tmo, depth=contract.lemma_depth + 1, seed=7)
-            dt += dt2
-            if v2 == 'unsat': v, why = v2, ''
-            elif v == 'unknown' and v2 == 'sat': v = 'sat'
+        # escalating budgets: verdicts must not flip when the machine is busy; only the last attempt's failure counts
+        attempts = [dict(timeout_ms=tmo, depth=contract.lemma_depth, seed=0, pair_timeout_ms=None),
+                    dict(timeout_ms=tmo * 2, depth=contract.lemma_depth, seed=7, pair_timeout_ms=3000),
+                    dict(timeout_ms=tmo * 3, depth=contract.lemma_depth + 1, seed=13, pair_timeout_ms=3000)]
+        dt = 0.0; v = 'unknown'; why = ''; sat_seen = False
+        for k, at in enumerate(attempts):
+            v, dti, why = E.discharge(ob, st.reg, alg, **at); dt += dti
+            if v == 'unsat' or z3.is_true(ob.goal): break
+            if v == 'sat' and not E._has_quant(ob.goal) and not any(E._has_quant(x) for x in ob.assume) and not ob.nsums: break      # a genuine quantifier-free counter-model
         res.obligations.append({'name': ob.name, 'kind': ob.kind, 'verdict': v, 'seconds': round(dt, 3), 'why': why, 'backend': 'z3'})
     res.wall = time.time() - t0
     res.state = st
